@@ -4,7 +4,9 @@ namespace Clikit.Drv.C10
 open Lean Clikit.Drv
 
 /-- `c10.gate {quiet, verbosity, flags|null}` -> what the translated gate and the
-declarative statement say. -/
+declarative statement say.
+`c10.facade {method, flags|null, std:{quiet,verbosity}, err:{quiet,verbosity}}` -> which of the two streams
+of an I/O receives the text of a write through the facade. -/
 def handle (m : String) (j : Json) : Option (R Json) :=
   match m with
   | "c10.gate" => some do
@@ -14,6 +16,19 @@ def handle (m : String) (j : Json) : Option (R Json) :=
       return Json.mkObj [("may_write", .bool (Clikit.Gen.mayWrite q v f)),
                          ("should_write", .bool (Clikit.Gate.shouldWrite q v f)),
                          ("lowest", jNat (Clikit.Gate.lowest f))]
+  | "c10.facade" => some do
+      let meth ← fStr j "method"
+      let f ← fOptNat j "flags"
+      let cfg (k : String) : R Clikit.Gate.OutCfg := do
+        let o ← field j k
+        return { quiet := (← fBool o "quiet"), verbosity := (← fNat o "verbosity") }
+      let std ← cfg "std"
+      let err ← cfg "err"
+      match Clikit.Gate.facadeChan meth with
+      | none => .error s!"c10.facade: not a writing entry point of the facade: {meth}"
+      | some c =>
+        let r := Clikit.Gate.facadeWrite std err c f
+        return Json.mkObj [("std", .bool r.1), ("err", .bool r.2)]
   | _ => none
 
 end Clikit.Drv.C10
